@@ -165,6 +165,9 @@ class Interp:
     # ------------------------------------------------------------ calls
     def call_function(self, fi: FuncInfo, args: List[V], kwargs: Dict[str, V] = None, node=None, closure=None) -> V:
         kwargs = dict(kwargs or {})
+        summ = getattr(self.models, "summaries", None)
+        if summ and fi.qualname in summ:
+            return summ[fi.qualname](self, fi, list(args), kwargs, node)
         if self.depth >= self.max_depth:
             raise Unsupported(f"inlining bound exceeded at {fi.qualname}")
         fnode = fi.node
@@ -328,7 +331,13 @@ class Interp:
             self.models.set_attr(obj, target.attr, v, target, aug)
         elif isinstance(target, ast.Subscript):
             obj = self.eval(target.value)
-            key = self.eval(target.slice)
+            if isinstance(target.slice, ast.Slice):
+                if target.slice.step is not None:
+                    self.unsupported(target, "extended slice assignment")
+                key = SliceV(self.eval(target.slice.lower) if target.slice.lower else None,
+                             self.eval(target.slice.upper) if target.slice.upper else None)
+            else:
+                key = self.eval(target.slice)
             self.models.set_item(obj, key, v, target)
         else:
             self.unsupported(target, "assignment target")
@@ -410,6 +419,23 @@ class Interp:
     def st_For(self, st):
         it = self.eval(st.iter)
         self.st.effects.append(("loop-iter", it, st.lineno))
+        if type(it).__name__ == "IterV":
+            # an explicit iterator keeps its position: a `break` leaves the rest for whoever resumes it
+            broke = False
+            while it.pos < len(it.seq):
+                x = it.seq[it.pos]
+                it.pos += 1
+                self.assign(st.target, x)
+                try:
+                    self.exec_block(st.body)
+                except BreakSig:
+                    broke = True
+                    break
+                except ContinueSig:
+                    continue
+            if not broke:
+                self.exec_block(st.orelse)
+            return
         seq = self.models.iterate(it, st)
         if seq is not None:           # concrete sequence
             broke = False
